@@ -155,8 +155,9 @@ Definition obs_eqb (m o : obs) : bool :=
   && snap_eqb (ob_snap m) (ob_snap o).
 
 (* case files write long arithmetic progressions (provider lists) as [nseq from count step] *)
-Definition nseq (from count step : N) : list N :=
-  map (fun i => from + step * N.of_nat i) (seq 0 (N.to_nat count)).
+Fixpoint nseq_aux (n : nat) (x step : N) : list N :=
+  match n with O => [] | S n' => x :: nseq_aux n' (x + step) step end.
+Definition nseq (from count step : N) : list N := nseq_aux (N.to_nat count) from step.
 
 (* One case of the main stream.  Result codes: 0 model = implementation and
    oracle true; 1 oracle true, model differs; 2 oracle false on the
